@@ -671,15 +671,21 @@ func (d *Driver) Gate(convs []*Conv) (checked int, out []GateFinding) {
 		if t.Global != nil {
 			// init() must assign the variable: checked on the SSA of the package initialiser
 			assigned := false
-			for _, m := range t.InPkg.Members {
-				fn, ok := m.(*ssa.Function)
-				if !ok || !strings.HasPrefix(fn.Name(), "init") {
+			// (the assignment may live in another package of the group when output:file / output:package redirect it)
+			for _, p := range d.L.Prog.AllPackages() {
+				if p != t.InPkg && !strings.HasPrefix(p.Pkg.Path(), t.InPkg.Pkg.Path()+"/") {
 					continue
 				}
-				for _, b := range fn.Blocks {
-					for _, in := range b.Instrs {
-						if st, ok := in.(*ssa.Store); ok && st.Addr == ssa.Value(t.Global) {
-							assigned = true
+				for _, m := range p.Members {
+					fn, ok := m.(*ssa.Function)
+					if !ok || !strings.HasPrefix(fn.Name(), "init") {
+						continue
+					}
+					for _, b := range fn.Blocks {
+						for _, in := range b.Instrs {
+							if st, ok := in.(*ssa.Store); ok && st.Addr == ssa.Value(t.Global) {
+								assigned = true
+							}
 						}
 					}
 				}
